@@ -28,6 +28,9 @@ type pipeSocket struct {
 }
 
 func (s *pipeSocket) Open() error {
+	if g := s.svc.openGate; g != nil {
+		<-g // the socket of the UDF is not there yet (kapacitor retries the connection for up to 5 minutes)
+	}
 	s.toAgent = newFragPipe(s.svc.frag())
 	s.fromAgent = newFragPipe(s.svc.frag())
 	s.out = &agentOut{p: s.fromAgent}
@@ -35,7 +38,8 @@ func (s *pipeSocket) Open() error {
 	s.ag = agent.New(s.toAgent, s.out)
 	s.h = &echoHandler{a: s.ag, pad: s.svc.pad, wants: s.wants, provides: s.provides, fault: s.svc.fault}
 	s.h.raw = func(b []byte) { s.out.afterFrames(s.h.handed(), func() { s.fromAgent.Write(b) }) }
-	s.h.closeFn = func() { s.out.afterFrames(s.h.handed(), func() { s.fromAgent.Close() }) }
+	// early close = the peer process is gone: both directions
+	s.h.closeFn = func() { s.out.afterFrames(s.h.handed(), func() { s.fromAgent.Close() }); s.toAgent.Break() }
 	s.ag.Handler = s.h
 	if err := s.ag.Start(); err != nil {
 		return err
@@ -61,8 +65,10 @@ type udfService struct {
 	pad     int
 	fault   *faultSpec
 	timeout time.Duration
-	socks   []*pipeSocket
-	udfs    []udf.Interface
+	// openGate, when set, blocks Socket.Open until it is closed
+	openGate chan struct{}
+	socks    []*pipeSocket
+	udfs     []udf.Interface
 }
 
 var udfInfos = map[string]udf.Info{
